@@ -250,6 +250,8 @@ func runC01(c *h.Ctx) {
 	eg.G.C.Datetime = true
 	// numerals as strings, in spellings only some number parsers take
 	eg.DC.Strs = append(append([]string{}, eg.DC.Strs...), "010", "-0017", "08", "0x10", "1_000", "0b101", "0o17", "1e2", " 1", "1.50")
+	// ... and numbers at the edges of the integer types, halves included
+	eg.DC.Nums = append(append([]string{}, eg.DC.Nums...), "2147483647.4", "-2147483648.4", "2147483647.5", "2147483648", "-2147483649", "9007199254740993", "9223372036854775807", "2.5", "-0.5", "1e19", "0.49999999999999994")
 	n := c.PerShard(c.N(4000000, 40000000))
 	for i := 0; i < n; i++ {
 		checkC01(c, eg.Next())
